@@ -174,7 +174,7 @@ func run(t *testing.T, tape *simrt.Tape) *hx.Outcome {
 	d := func(n int) int { return tape.Draw("gen", n) }
 	c := func(n int) int { return tape.Draw("cfg", n) }
 	cs := []int{8, 17, 64, 50}[c(4)]
-	spec := common.GenTar(d, tape.Seed, common.GenOpts{ChunkSize: cs, MaxEntries: 12, OddNames: d(3) == 0, BigFiles: d(3) == 0})
+	spec := common.GenTar(d, tape.Seed, common.GenOpts{ChunkSize: cs, MaxEntries: 12, OddNames: d(3) == 0, BigFiles: d(3) == 0, Dups: d(3) == 0})
 	spec.OwnerNames = c(2) == 0
 	tarB := spec.Bytes()
 	model, err := common.Model(tarB)
@@ -354,7 +354,7 @@ func run(t *testing.T, tape *simrt.Tape) *hx.Outcome {
 	// (3) the tar an eStargz-agnostic runtime unpacks
 	om, err := common.Model(u)
 	if err != nil {
-		return fail("invalid-tar", "the decompressed stream is not a tar archive: %v", err)
+		return fail("invalid-tar", "the decompressed stream does not unpack as a tar archive read front to back: %v", err)
 	}
 	if m := eqTree(model, om, ""); m != "" {
 		return fail("unpacks-differently", "%s", m)
@@ -499,7 +499,7 @@ func run(t *testing.T, tape *simrt.Tape) *hx.Outcome {
 		for off := int64(0); off < int64(len(n.Data)); {
 			ce, ok := r.ChunkEntryForOffset(n.Path, off)
 			if !ok || ce.ChunkSize <= 0 || ce.ChunkOffset != off || off+ce.ChunkSize > int64(len(n.Data)) {
-				bad = fmt.Sprintf("%q: no well-formed TOC chunk at file offset %d", n.Path, off)
+				bad = fmt.Sprintf("%q (%d bytes): no well-formed TOC chunk at file offset %d (found=%v %+v)", n.Path, len(n.Data), off, ok, ce)
 				return
 			}
 			want := n.Data[off : off+ce.ChunkSize]
